@@ -3,6 +3,7 @@
 
 pub mod driver;
 pub mod entropy;
+pub mod framed;
 pub mod rng;
 pub mod rt;
 pub mod simio;
